@@ -16,8 +16,9 @@ EXTENDS CodecCore
 \* as nested existential quantification so that TLC enumerates the descriptions without first building their set.
 
 CONSTANTS Wrong         \* TRUE: value alphabets are widened to the wrong (C04): out of range, too long/short, wrongly typed
-VARIABLES phase, desc
-vars == <<phase, desc>>
+VARIABLES phase, desc,
+          cases      \* every case of desc, evaluated once by the action Evaluate
+vars == <<phase, desc, cases>>
 
 Tok(n) == [t |-> "tok", name |-> n]
 BytesV(b) == [t |-> "bytes", v |-> b]
@@ -31,13 +32,13 @@ DictV(d) == [t |-> "dict", v |-> d]
 Bad(n) == [t |-> "bad", name |-> n]          \* a value of the wrong Python type (the harness supplies the object)
 BadValues == {Bad("str"), Bad("float"), Bad("bytes"), Bad("none"), Bad("list"), Bad("dict")}
 RightValues(dct) ==
-    CASE dct.base = "uint" -> (IF dct.enc = "NONE" THEN {IntV(0), IntV(5), Tok("MAXU")} ELSE {IntV(0), IntV(9), IntV(12)})
-      [] dct.base = "int" -> {IntV(0), IntV(-1), IntV(3), Tok("MINS1")}
+    CASE dct.base = "uint" -> (IF dct.enc \in {"NONE", "DEFAULT"} THEN {IntV(0), IntV(5), Tok("MAXU")} ELSE {IntV(0), IntV(9), IntV(12)})
+      [] dct.base = "int" -> {IntV(0), IntV(-1), IntV(3), Tok("MINS1"), Tok("MINS")}
       [] dct.base = "f32" -> {FloatV(<<63, 128, 0, 0>>), FloatV(<<192, 73, 15, 219>>)}
       [] dct.base = "f64" -> {FloatV(<<63, 240, 0, 0, 0, 0, 0, 0>>), FloatV(<<192, 9, 33, 251, 84, 68, 45, 24>>)}
       [] dct.base = "bytes" -> (IF dct.k = "std" THEN {BytesV([i \in 1..(dct.bits \div 8) |-> 16 + i]), BytesV([i \in 1..(dct.bits \div 8) |-> 255])}
                                ELSE {BytesV(<<>>), BytesV(<<18>>), BytesV(<<18, 52, 86>>)})
-      [] OTHER -> {TextV(<<>>), TextV(<<65>>), TextV(<<65, 228>>), TextV(<<8364, 66>>)}
+      [] OTHER -> {TextV(<<>>), TextV(<<65>>), TextV(<<65, 228>>), TextV(<<8364, 66>>), TextV(<<256>>)}   \* U+0100 = 01 00 in UCS-2
 \* centred on the representability boundaries: every integer around the n-bit range for small n, the boundaries beyond
 WrongValues(dct) ==
     BadValues \cup
@@ -64,6 +65,9 @@ DopValues(d) ==
     IF "alpha" \in DOMAIN d THEN d.alpha ELSE      \* a data object may bring its own value alphabet
     CASE d.k = "simple" -> DctValues(d.dct)
       [] d.k = "struct" -> {DictV(a) : a \in Assignments(d.ps, 1)}
+      [] d.k = "mux" -> UNION {IF c.st.k = "none" THEN {[t |-> "pair", a |-> c.n, b |-> DictV(<<>>)]}
+                                ELSE {[t |-> "pair", a |-> c.n, b |-> x] : x \in DopValues(c.st)} :
+                                c \in {d.cases[i] : i \in 1..Len(d.cases)} \cup (IF d.hasdflt THEN {d.dflt} ELSE {})}
       [] d.k = "sfield" -> LET vs == DopValues(d.st) IN
                            IF d.cnt = 1 THEN {ListV(<<a>>) : a \in vs} ELSE {ListV(<<a, b>>) : a \in vs, b \in vs}
       [] OTHER -> ItemLists(d.st)
@@ -77,6 +81,9 @@ CanonDop(d, v) ==
                             ELSE IF d.dct.k = "paramlen" /\ d.dct.base \in {"uint", "int"} THEN CanonAtomic(d.dct, v, 32)
                             ELSE v)
       [] d.k = "struct" -> CanonDict(d.ps, v)
+      [] d.k = "mux" -> LET cs == {d.cases[i] : i \in 1..Len(d.cases)} \cup (IF d.hasdflt THEN {d.dflt} ELSE {})
+                            c == CHOOSE x \in cs : x.n = v.a IN
+                        [t |-> "pair", a |-> v.a, b |-> IF c.st.k = "none" THEN DictV(<<>>) ELSE CanonDop(c.st, v.b)]
       [] OTHER -> ListV([i \in 1..Len(v.v) |-> CanonDop(d.st, v.v[i])])
 \* supplied values in canonical form, defaults and constants filled in
 CanonDict(ps, d) ==
@@ -94,6 +101,7 @@ Agrees(e, g) ==
     ELSE IF e.t # g.t THEN FALSE
     ELSE CASE e.t = "dict" -> Len(e.v) = Len(g.v) /\ \A i \in 1..Len(e.v) : e.v[i][1] = g.v[i][1] /\ Agrees(e.v[i][2], g.v[i][2])
            [] e.t = "list" -> Len(e.v) = Len(g.v) /\ \A i \in 1..Len(e.v) : Agrees(e.v[i], g.v[i])
+           [] e.t = "pair" -> e.a = g.a /\ Agrees(e.b, g.b)
            [] OTHER -> e = g
 
 ---------------------------------------------------------------------------
@@ -111,15 +119,16 @@ RunCase(ps, rq, a) ==
         \* overlapping objects (the encoder warns) cannot be expected to come back
         rt |-> st.err \/ st.ovl \/ (~dec.ds.err /\ Agrees(CanonDict(ps, vals), dec.v)),
         trunc |-> IF st.err THEN <<>> ELSE [k \in 1..Len(bytes) |-> PrefixVerdicts(ps, bytes)[k - 1]]]
-Cases(d) == {RunCase(d.ps, d.rq, a) : a \in Assignments(d.ps, 1)}
-OkCases(d) == {c \in Cases(d) : ~c.err}
+AllCases(d) == {RunCase(d.ps, d.rq, a) : a \in Assignments(d.ps, 1)}
+Cases(d) == cases
+OkCases(d) == {c \in cases : ~c.err}
 Supplied(c) == {c.vals.v[i][1] : i \in 1..Len(c.vals.v)}
 IsPrefixOf(a, b) == Len(a) <= Len(b) /\ SubSeq(b, 1, Len(a)) = a
 
 ---------------------------------------------------------------------------
-Init == phase = "pick" /\ desc = [ps |-> <<>>, rq |-> <<>>]
-Pick(d) == phase = "pick" /\ desc' = d /\ phase' = "picked"
-Evaluate == phase = "picked" /\ phase' = "done" /\ UNCHANGED desc
+Init == phase = "pick" /\ desc = [ps |-> <<>>, rq |-> <<>>] /\ cases = {}
+Pick(d) == phase = "pick" /\ desc' = d /\ phase' = "picked" /\ UNCHANGED cases
+Evaluate == phase = "picked" /\ phase' = "done" /\ cases' = AllCases(desc) /\ UNCHANGED desc
 Done == phase = "done"
 
 (* design-level invariants of the reference *)
